@@ -172,9 +172,13 @@ func checkC08(c *Ctx) {
 			continue
 		}
 		fields := c.litFields(info, lit)
+		c.compareEntryGuards(fi, fl, name)
 		if name == "Compare" {
 			c.compareRecord(fi, fl, fields, lit)
 			c.sametreeDep(fi, fl, clause)
+			c.compareDeep(fi, fl)
+		} else {
+			c.compareWeightedTerms(fi, fl, fields)
 		}
 		// Err field: carries the accumulated error variable
 		if e, ok := fields["Err"]; ok {
@@ -219,18 +223,73 @@ func checkC08(c *Ctx) {
 			}
 			return true
 		})
+		c.Require("GF/tree.CommonEdges/count-guard", "LF/tree.CommonEdges/only-reference", "GF/tree.CommonEdges/common-iff-found")
+		// common++ exactly when FindEdge found the split among the other tree's branches
+		ast.Inspect(fi.Decl.Body, func(nd ast.Node) bool {
+			inc, ok := nd.(*ast.IncDecStmt)
+			if !ok || inc.Tok != token.INC || c.canon(info, inc.X, nil) != "common" {
+				return true
+			}
+			// the variable that receives FindEdge's result
+			var found types.Object
+			ast.Inspect(fi.Decl.Body, func(m ast.Node) bool {
+				if as, ok := m.(*ast.AssignStmt); ok && len(as.Rhs) == 1 && len(as.Lhs) >= 1 {
+					if cl, ok := unparen(as.Rhs[0]).(*ast.CallExpr); ok && isRepoFunc(calleeOf(info, cl), "tree", "Edge", "FindEdge") {
+						found = identObj(info, as.Lhs[0])
+					}
+				}
+				return true
+			})
+			good := false
+			if conds, okc := c.pathConds(info, fi.Decl.Body, inc, true); okc && found != nil {
+				for _, cd := range conds {
+					if cd.Expr == nil {
+						continue
+					}
+					if o, nonNil, isNil := nilTest(info, cd.Expr); isNil && o == found && (nonNil != cd.Neg) {
+						good = true
+					}
+				}
+			}
+			c.Check(good, "GF", "tree.CommonEdges/common-iff-found", inc.Pos(), "common counted when FindEdge returned a branch", "`common` is not incremented exactly where FindEdge has returned a branch (non-nil)").Clause = "in both"
+			return true
+		})
 		env := c.newLFEnv(info, fi.Decl.Body)
 		// tree1 = tree1 - common
+		nOnly := 0
 		ast.Inspect(fi.Decl.Body, func(nd ast.Node) bool {
 			as, ok := nd.(*ast.AssignStmt)
-			if ok && len(as.Lhs) == 1 && as.Tok == token.ASSIGN && c.canon(info, as.Lhs[0], nil) == "tree1" {
-				p, err := env.fold(as.Rhs[0])
-				if err == nil {
-					c.Check(p.String() == "-common + tree1", "LF", "tree.CommonEdges/only-reference", as.Pos(), "tree1 = total − common", "reference-only count computed as "+p.String()).Clause = "exactly the number of splits found only in the reference"
+			if ok && len(as.Lhs) == 1 && len(as.Rhs) == 1 && c.canon(info, as.Lhs[0], nil) == "tree1" {
+				switch as.Tok {
+				case token.ASSIGN:
+					p, err := env.fold(as.Rhs[0])
+					if err == nil {
+						nOnly++
+						c.Check(p.String() == "-common + tree1", "LF", "tree.CommonEdges/only-reference", as.Pos(), "tree1 = total − common", "reference-only count computed as "+p.String()).Clause = "exactly the number of splits found only in the reference"
+					}
+				case token.SUB_ASSIGN:
+					p, err := env.fold(as.Rhs[0])
+					if err == nil {
+						nOnly++
+						c.Check(p.String() == "common", "LF", "tree.CommonEdges/only-reference", as.Pos(), "tree1 -= common", "reference-only count computed as tree1 - ("+p.String()+")").Clause = "exactly the number of splits found only in the reference"
+					}
 				}
 			}
 			return true
 		})
+		if nOnly == 0 {
+			// no update of the counter: the successful return computes the difference itself
+			ast.Inspect(fi.Decl.Body, func(nd ast.Node) bool {
+				r, ok := nd.(*ast.ReturnStmt)
+				if !ok || len(r.Results) != 3 || !isNilIdent(info, r.Results[2]) {
+					return true
+				}
+				if p, err := env.fold(r.Results[0]); err == nil {
+					c.Check(p.String() == "-common + tree1", "LF", "tree.CommonEdges/only-reference", r.Pos(), "returns total − common", "reference-only count returned as "+p.String()).Clause = "exactly the number of splits found only in the reference"
+				}
+				return true
+			})
+		}
 	}
 	c.Decides("CMP: the tip order behind the bit sets of both trees (SortedTips) is a strict comparison of plain names, so the same taxa get the same bit positions in both trees whatever their child order or rooting")
 	if fi := c.Func("tree", "Tree", "SortedTips"); fi != nil {
@@ -786,6 +845,10 @@ func checkC09(c *Ctx) {
 		lenOK := len(p.norm().terms) == 1 && strings.Contains(p.String(), ".Len") && strings.Contains(p.String(), ".Count^-1")
 		c.Check(lenOK, "LF", "tree.Consensus/tip-length", sc.call.Pos(), "tip length = "+p.String(), "tip branch length is "+p.String()+", property: its mean length (Len/Count)").Clause = "tip branches carry their mean length"
 	}
+	c.Decides("MAKE-APPEND (shared with C15): no slice of package tree (the name list Consensus builds for each kept split included) is created with a non-zero length and then filled with append")
+	c.makeAppend("MAKE-APPEND", c.AllFuncs("tree"), "contains exactly the splits whose frequency exceeds the threshold")
+	c.Floor("MAKE-APPEND", 10)
+	c.Require("LF/tree.Consensus/branch-length", "LF/tree.Consensus/branch-support", "LF/tree.Consensus/tip-length", "LF/tree.Consensus/Edges-args")
 	// the counter of trees is incremented once per tree, inside the loop over the channel
 	// ERRFLOW
 	sp := &errFlowSpec{info: info, body: fi.Decl.Body, ftype: fi.Decl.Type, sinkVars: map[types.Object]bool{}}
